@@ -148,6 +148,57 @@ def j_hostopt(target_i, hostopt_i):
     cover("hostopt")
 
 
+def j_threads(pre):
+    """two handshake responses naming the same domain (different spelling) are processed by two threads at once; every access
+    to the jar's store is a preemption point, every scheduling decision a solver choice: afterwards a host inside the domain gets
+    the cookies of BOTH responses (and the earlier one).  (Threads are outside the property's quantifier: not required.)"""
+    quiet_logging()
+    import simnet
+    from websocket._cookiejar import SimpleCookieJar
+    k = simnet.Kernel(step_budget=4000, explore_sched=True)
+
+    class YDict(dict):
+        def get(self, *a):
+            k.yield_now()
+            return dict.get(self, *a)
+
+        def __getitem__(self, key):
+            k.yield_now()
+            return dict.__getitem__(self, key)
+
+        def __setitem__(self, key, v):
+            k.yield_now()
+            dict.__setitem__(self, key, v)
+
+    jar = SimpleCookieJar()
+    store = sx.unit(jar, "jar")
+    if pre:
+        jar.add("sid=1; Domain=example.com")
+    jar.jar = YDict(store)
+    errs = []
+
+    def run_a():
+        try:
+            jar.add("beta=B; Domain=example.com")
+        except Exception as e:
+            errs.append(type(e).__name__)
+    try:
+        pa = k.spawn(run_a, "A")
+        jar.add("alpha=A; Domain=.EXAMPLE.com")
+        k.block(lambda: pa.done, None)
+        got = jar.get("www.example.com")
+    finally:
+        k.shutdown()
+    sx.require(not errs, "adding cookies from two threads raised %s" % ",".join(errs))
+    exp = "alpha=A; beta=B" + ("; sid=1" if pre else "")
+    if pre:
+        sx.require(got == exp, "cookies set by two responses processed concurrently are both kept (with the domain's earlier cookie)", got=got, exp=exp)
+    else:
+        # without an earlier entry the unchanged jar itself can lose one of the two FIRST cookies of a domain: not demanded
+        sx.require(all(p in exp.split("; ") for p in got.split("; ") if p), "nothing foreign appears", got=got)
+    cover("jar-threads")
+
+
 def _roundtrip(host, respond, cookie):
     """one real create_connection to ws://host/ on the fake network; returns the request head the server saw"""
     import websocket
@@ -181,4 +232,9 @@ def obligations(tier):
         Obligation("J-hist", j_hist, hist, bounds="histories of <=%d responses over names {a,b} x values {1,2} x domains %s (+ merged two-line form, + caller cookie, + cookie set by a 302 redirect response of the handshake), "
                    "each followed by handshakes to %s" % (3 if thorough else 2, DOMAINS, HOSTS), must_cover=["hist", "stored"], budget_s=2400, step_budget=400000,
                    kernel=["SimpleCookieJar.add", "SimpleCookieJar.get", "_handshake.handshake_response", "_get_handshake_headers", "_http.read_headers (Set-Cookie merge)"]),
+        Obligation("J-threads", j_threads, [dict(pre=True)], required=False,
+                   bounds="two threads adding a cookie for the same domain (spelled example.com / .EXAMPLE.com) to a jar that already holds one for it; "
+                          "every access to the jar's store a preemption point, every scheduling decision a solver choice",
+                   outside=["threads are not in the property's quantifier; preemption elsewhere than at the store accesses"],
+                   must_cover=["jar-threads"], kernel=["SimpleCookieJar.add", "SimpleCookieJar.get"]),
     ]
